@@ -106,6 +106,15 @@ pub fn c13(tier: &str, seed: u64) -> Vec<Case> {
             let qn = if !pool.is_empty() && r.chance(2, 3) { r.pick(&pool).name.clone() } else { mk_name(&r.pick(&names)[..]) };
             q.questions.push(Question::new(qn, qt, qc, r.chance(1, 4)));
         }
+        // service enumeration asked outright while service types are registered: the answer holds what is registered under
+        // the asked name (usually nothing), never records made up from other names
+        if it % 7 == 3 {
+            let ty = mk_name(&[b"_http".to_vec(), b"_tcp".to_vec(), b"local".to_vec()]);
+            let inst = mk_name(&[b"printer".to_vec(), b"_http".to_vec(), b"_tcp".to_vec(), b"local".to_vec()]);
+            ops.push(Op::Auth(ResourceRecord::new(ty, CLASS::IN, 120, RData::PTR(PTR(inst)))));
+            let meta = mk_name(&[b"_services".to_vec(), b"_dns-sd".to_vec(), b"_udp".to_vec(), b"local".to_vec()]);
+            q.questions.insert(0, Question::new(meta, if it % 2 == 0 { QTYPE::TYPE(TYPE::PTR) } else { QTYPE::ANY }, CLASS::IN.into(), false));
+        }
         // whatever else the header of the query says (opcode, response code, TC / RD / AA ...): the reply holds every matching
         // registered record; the property has no exception for them
         if r.chance(1, 4) {
